@@ -36,7 +36,7 @@ FU = 'utils.func_utils'
 
 
 def run(ctx: Ctx):
-  for r in (r1, r2, r3, r4, r5):
+  for r in (r1, r2, r3, r4, r5, r6):
     ctx.guard(r)
 
 
@@ -174,6 +174,29 @@ def r2(ctx: Ctx):
       ctx.fail(rule, fi, f'LazyFn.result_: {label}',
                f'materialisation is not recursive: {label} does not hold, so'
                ' nested lazy values reach the function unevaluated', node=fi.node)
+  # evaluation order of an eager call: callee, positional args, keyword args
+  if fnv and argv and kwv:
+    line = {}
+    for s_ in walk_no_nested(fi.node):
+      if isinstance(s_, ast.Assign) and isinstance(s_.targets[0], ast.Name):
+        line.setdefault(s_.targets[0].id, s_.lineno)
+    g0 = cfgm.cfg_of(fi.node)
+    def _node_of(name):
+      return next((n_ for n_ in g0.nodes if n_.kind == 'stmt' and isinstance(n_.ast, ast.Assign)
+                   and isinstance(n_.ast.targets[0], ast.Name) and n_.ast.targets[0].id == name), None)
+    nf, na, nk = _node_of(fnv[0]), _node_of(argv[0]), _node_of(kwv[0])
+    order_ok = nf is not None and na is not None and nk is not None and (
+        g0.dominates(lambda x: x is nf, na, cfgm.only_normal) is None
+        and g0.dominates(lambda x: x is na, nk, cfgm.only_normal) is None)
+    if order_ok:
+      ctx.ok(rule, fi, 'callee materialised before positional before keyword arguments', fi.node)
+    else:
+      ctx.fail(rule, fi, 'LazyFn.result_: materialise the callee, then args, then kwargs',
+               'the lazy call does not evaluate its parts in the order of an eager'
+               ' call (callee expression first, then positional, then keyword'
+               ' arguments): with a stateful callable on both sides'
+               ' (`f(tick())(tick())`) the materialised value differs from the'
+               ' eager one', node=(na or nf or fi.node).ast if hasattr(na or nf, 'ast') else fi.node)
   for qn in ('LazyFn.result_', 'LazyObject.result_'):
     f2 = repo.func(LF, qn)
     g = cfgm.cfg_of(f2.node)
@@ -454,11 +477,60 @@ def r5(ctx: Ctx):
   ctx.floor(rule, 2, n)
 
 
+def r6(ctx: Ctx):
+  rule = 'R-C17-6'
+  ctx.rule(rule, '"each materialisation without caching evaluates the expression'
+           ' afresh": caching (and lazy results) of a derived expression is'
+           ' only ever switched on by an explicit argument of the user — every'
+           ' `cache_result=` / `lazy_result=` passed to LazyFn.new inside the'
+           ' tracing API is a parameter of the enclosing function or False;'
+           ' attribute/item expressions inherit nothing from their receiver')
+  mi = ctx.repo.module(LF)
+  fns = list(mi.functions.values()) + [m for c in mi.classes.values() for m in c.methods.values()]
+  n = 0
+  for fi in fns:
+    params = set(fi.params())
+    for c in ast.walk(fi.node):
+      if not (isinstance(c, ast.Call) and unparse(c.func) in ('LazyFn.new', 'cls.new', 'LazyFn', 'LazyObject')):
+        continue
+      n += 1
+      bad = None
+      for k in c.keywords:
+        if k.arg in ('cache_result', 'lazy_result'):
+          v = k.value
+          if isinstance(v, ast.Constant) and v.value in (False, None):
+            continue
+          if isinstance(v, ast.Name) and v.id in params:
+            continue
+          bad = (k.arg, v)
+      if bad:
+        ctx.fail(rule, fi, f'{fi.qualname}: {bad[0]}= comes from an explicit parameter',
+                 f'{fi.qualname} builds a lazy expression with {bad[0]}={unparse(bad[1])[:40]},'
+                 ' which is not an argument the caller passed: the derived'
+                 ' expression is cached although no caching was requested, so a'
+                 ' later materialisation returns a stale value (and a cleared'
+                 ' object store no longer raises the missing-object error)', node=c)
+      else:
+        ctx.ok(rule, fi, f'{fi.qualname}: {unparse(c)[:50]}', c)
+  ctx.floor(rule, 3, n)
+
+
 from mlmverif.selfcheck import B, OK  # noqa: E402
 
 _L = 'chainables/lazy_fns.py'
 _F = 'utils/func_utils.py'
 VARIANTS = [
+    B('args-before-callee', _L,
+      '      fn = _maybe_make(self.value)\n      if not callable(fn):\n        raise TypeError(f\'fn is not callable from {self}.\')\n      args = tuple(_maybe_make(arg) for arg in self.args)\n      kwargs = {k: _maybe_make(v) for k, v in self.kwargs}',
+      '      args = tuple(_maybe_make(arg) for arg in self.args)\n      kwargs = {k: _maybe_make(v) for k, v in self.kwargs}\n      fn = _maybe_make(self.value)\n      if not callable(fn):\n        raise TypeError(f\'fn is not callable from {self}.\')',
+      'R-C17-2'),
+    B('kwargs-before-args', _L,
+      '      args = tuple(_maybe_make(arg) for arg in self.args)\n      kwargs = {k: _maybe_make(v) for k, v in self.kwargs}',
+      '      kwargs = {k: _maybe_make(v) for k, v in self.kwargs}\n      args = tuple(_maybe_make(arg) for arg in self.args)',
+      'R-C17-2'),
+    B('getattr-inherits-cache-flag', _L,
+      '    return LazyFn.new(getattr, args=(self, name))',
+      '    return LazyFn.new(getattr, args=(self, name), cache_result=self._cache_result)', 'R-C17-6'),
     B('getstate-drops-value-of-cached', _L,
       '  def __getstate__(self):\n    return dict(self.__dict__)',
       "  def __getstate__(self):\n    state = dict(self.__dict__)\n    if self._cache_result:\n      state['value'] = None\n    return state",
